@@ -113,7 +113,10 @@ type GenOpts struct {
 	// paragraph, sized so that its content ends within its bottom decoration of the page bottom
 	// (the `canBreak && borderPageOverflow` branch of inFlowLayout: second layout with more bottom space)
 	WrapperBottom bool
-	PageH         float64 // > 0: the content-box height of the pages (the caller's @page rule gives it)
+	// ParaBottom: a long paragraph with bottom padding / border only, split over several pages (the offset
+	// for the bottom decoration counts for the paragraph's LAST line only: box-decoration-break: slice)
+	ParaBottom bool
+	PageH      float64 // > 0: the content-box height of the pages (the caller's @page rule gives it)
 }
 
 type gen struct {
@@ -273,7 +276,7 @@ func GenClassF(r *rng.R, o GenOpts, pageCSS string) *ClassF {
 	if o.PageH > 0 {
 		h = o.PageH
 	}
-	if o.WrapperBottom && h < 60 {
+	if (o.WrapperBottom || o.ParaBottom) && h < 60 {
 		h = 60
 	}
 	if pageCSS == "" {
@@ -327,6 +330,38 @@ func GenClassF(r *rng.R, o GenOpts, pageCSS string) *ClassF {
 			body.Kids = append(body.Kids, para(1+r.Intn(3), body))
 		}
 		g.feat["wrapper-bottom-decoration"] = true
+	}
+	if o.ParaBottom {
+		k = 0
+		para := func(n int, pb, bbw float64, orph, wid int) *Box {
+			p := &Box{St: Style{BI: "auto", BB: "auto", BA: "auto", Orph: orph, Wid: wid, PB: pb, BBw: bbw}, Lines: []int{}}
+			st := fmt.Sprintf("orphans:%d;widows:%d", orph, wid)
+			if pb != 0 || bbw != 0 {
+				st += fmt.Sprintf(";padding:0 0 %spx;border-bottom:%spx solid", fnum(pb), fnum(bbw))
+			}
+			fmt.Fprintf(&g.buf, `<div style="%s">`, st)
+			for j := 0; j < n; j++ {
+				if j > 0 {
+					g.buf.WriteString("<br>")
+				}
+				g.n++
+				p.Lines = append(p.Lines, g.n)
+				g.buf.WriteString(Tok(g.n))
+			}
+			g.buf.WriteString("</div>")
+			return p
+		}
+		if r.Bool() {
+			body.Kids = append(body.Kids, para(1+r.Intn(3), 0, 0, 1, 1))
+		}
+		n := 1 + r.Intn(3)
+		for i := 0; i < n; i++ {
+			body.Kids = append(body.Kids, para(4+r.Intn(9), float64(10*(1+r.Intn(4))), float64(2*r.Intn(3)), 1+r.Intn(2), 1+r.Intn(2)))
+		}
+		if r.Bool() {
+			body.Kids = append(body.Kids, para(1+r.Intn(3), 0, 0, 1, 1))
+		}
+		g.feat["para-bottom-decoration"] = true
 	}
 	for i := 0; i < k; i++ {
 		if o.LongParent {
